@@ -152,3 +152,57 @@ def replay_stale_prev_priority(prop, v):
 
 
 REPLAYS["Node.accept"] = replay_stale_prev_priority
+
+
+def replay_renege_destination(prop, v):
+    """whole-run witness: the documented jockeying example (renege at node 1, join node 2)"""
+    ciw = _ciw()
+
+    class Jockey(ciw.routing.Leave):
+        def next_node_for_jockeying(self, ind):
+            return self.simulation.nodes[2]
+    N = ciw.create_network(
+        arrival_distributions=[ciw.dists.Deterministic(0.2), None],
+        service_distributions=[ciw.dists.Deterministic(1.0), ciw.dists.Deterministic(0.25)],
+        number_of_servers=[1, 1],
+        routing=ciw.routing.NetworkRouting(routers=[Jockey(), ciw.routing.Leave()]),
+        reneging_time_distributions=[ciw.dists.Deterministic(1.5), None])
+    Q = ciw.Simulation(N)
+    Q.simulate_until_max_time(6)
+    bad = []
+    for ind in Q.get_all_individuals():
+        recs = ind.data_records
+        for a, b in zip(recs, recs[1:]):
+            if a.record_type == "renege" and a.destination != b.node:
+                bad.append((ind.id_number, a.destination, b.node))
+    if bad:
+        return dict(confirmed=True, kind="whole-run",
+                    transcript=f"jockeying example of the documentation: {len(bad)} customers whose renege record names destination "
+                               f"{bad[0][1]!r} while their next record is at node {bad[0][2]} (customer {bad[0][0]})")
+    return dict(confirmed=False, kind="whole-run", transcript="every renege record names the node of the customer's next record")
+
+
+REPLAYS["Node.renege"] = replay_renege_destination
+
+
+def replay_blocked_overtime_server(prop, v):
+    """whole-run witness: an overtime customer finishes service during a 0-server shift and is blocked"""
+    ciw = _ciw()
+    N = ciw.create_network(
+        arrival_distributions=[ciw.dists.Sequential([4.0, 1000.0]), ciw.dists.Sequential([0.5, 1000.0])],
+        service_distributions=[ciw.dists.Deterministic(3.0), ciw.dists.Deterministic(100.0)],
+        routing=[[0.0, 1.0], [0.0, 0.0]],
+        number_of_servers=[ciw.Schedule(numbers_of_servers=[1, 0], shift_end_dates=[5, 100], preemption=False), 1],
+        queue_capacities=[float('inf'), 0])
+    Q = ciw.Simulation(N)
+    times = _run_events(Q, 40)
+    dup = len(Q.nodes[2].blocked_queue)
+    if dup > 1 and len(set(times[-10:])) == 1:
+        return dict(confirmed=True, kind="whole-run",
+                    transcript=f"node 1 = Schedule([1,0],[5,100]) non-pre-emptive, node 2 full: the customer served 4.0-7.0 on an overtime server "
+                               f"is blocked at 7.0 but its server's next_end_service_date is not reset (guard self.c > 0 with c == 0): the same "
+                               f"end-of-service event repeats at t={times[-1]} forever, node 2's blocked queue holds {dup} copies of the customer")
+    return dict(confirmed=False, kind="whole-run", transcript=f"clock advanced normally: {times[-5:]}, blocked queue length {dup}")
+
+
+REPLAYS["Node.finish_service"] = replay_blocked_overtime_server
